@@ -647,6 +647,87 @@ def seam_b_lists(res):
                     res.hist["list:" + str(exp)] += 1
 
 
+# -- entries given as callables ------------------------------------------------------------------
+
+# (callable objects without __name__ - functools.partial, instances with __call__ - are refused by
+# the declaration API itself with an AttributeError and are outside the documented domain)
+CALLABLE_KINDS = ("function", "lambda", "bound-method", "property-object")
+
+
+def callable_entries(res):
+    """cond/unless entries that are callables living *outside* the class (functions reading an
+    external object, bound methods of an external object, partials, property objects): every
+    evaluation reads the current value of that very object - for transitions declared with to()
+    and for the per-state copies made by from_.any()."""
+    from statemachine import State, StateMachine
+    from statemachine.factory import StateMachineMetaclass
+    for kind in CALLABLE_KINDS:
+        for polarity in ("cond", "unless"):
+            for any_style in (False, True):
+                class Flag:
+                    def __init__(self):
+                        self.value = False
+                        self.reads = 0
+
+                    def is_on(self, *args, **kwargs):
+                        self.reads += 1
+                        return self.value
+                flag = Flag()
+                if kind == "function":
+                    def entry(flag=flag):
+                        return flag.is_on()
+                elif kind == "lambda":
+                    entry = lambda: flag.is_on()   # noqa: E731
+                elif kind == "bound-method":
+                    entry = flag.is_on
+                else:
+                    def is_on(self, flag=flag):
+                        return flag.is_on()
+                    entry = property(is_on)
+                sa, sb = State(initial=True), State()
+                ns = {"st_a": sa, "st_b": sb, "back": sb.to(sa)}
+                if kind == "property-object":
+                    ns["is_on"] = entry      # a property of the class, passed by reference
+                if any_style:
+                    ns["go"] = sb.from_.any(**{polarity: entry})
+                else:
+                    ns["go"] = sa.to(sb, **{polarity: entry})
+                sc = {"callable_entry": [kind, polarity, any_style]}
+                try:
+                    cls = StateMachineMetaclass("MC8", (StateMachine,), ns)
+                    sm = cls()
+                except Exception as e:   # noqa: BLE001
+                    res.stats["evaluations"] += 1
+                    res.violation({"category": "callable-entry-rejected", "kind": kind}, sc,
+                                  f"{polarity}=<{kind}> ({'from_.any()' if any_style else 'to()'}): "
+                                  f"{type(e).__name__}: {e}")
+                    continue
+                for seq in itertools.product((True, False, 0, "s"), repeat=2):
+                    for v in seq:
+                        flag.value = v
+                        before = flag.reads
+                        sm.current_state_value = "st_a"
+                        try:
+                            sm.send("go")
+                            fired = sm.current_state_value == "st_b"
+                        except sm.TransitionNotAllowed:
+                            fired = False
+                        exp = bool(v) == (polarity == "cond")
+                        res.stats["evaluations"] += 1
+                        if fired != exp or flag.reads != before + 1:
+                            res.violation(
+                                {"category": "callable-entry", "kind": kind, "any": any_style}, sc,
+                                f"{polarity}=<{kind} of an external object> declared with "
+                                f"{'from_.any()' if any_style else 'to()'}: the object currently "
+                                f"says {v!r}: expected fires={exp} after exactly one read of it, "
+                                f"observed fires={fired} after {flag.reads - before} read(s)")
+                            break
+                        res.hist["callable-entry:" + str(exp)] += 1
+                    else:
+                        continue
+                    break
+
+
 # -- negative space ---------------------------------------------------------------------------------
 
 ALLOWED_NODES = (ast.Expression, ast.BoolOp, ast.And, ast.Or, ast.UnaryOp, ast.Not, ast.Compare,
@@ -817,6 +898,7 @@ def worker(block):
     elif kind == "lists":
         with deadline(300):
             seam_b_lists(res)
+            callable_entries(res)
     else:
         _, tier, lo, hi = block
         small = bool_shapes(1) + [("cmp", (atom("a"), atom("b")), ("<=",)),
@@ -886,6 +968,12 @@ def replay(sc):
     if "negative" in sc:
         e = sc["negative"]
         negative(res, [(e, e.replace("!", " not ").replace("^", " and "))])
+    elif "callable_entry" in sc:
+        callable_entries(res)
+        for v in res.violations:
+            if v["scenario"] == sc:
+                return v["message"]
+        return None
     elif "lists" in sc:
         seam_b_lists(res)
     elif sc.get("seam") == "b":
